@@ -1064,6 +1064,24 @@ func c15PositionArithmetic(p *Program, r *Report, sm *scanModel) {
 							counted = true
 						}
 					}
+					// the bookkeeping concerns the character that is being left: the cursor has not been moved yet in this call (a
+					// line that is counted on arriving at its newline puts the newline itself, and an error reported there, on the
+					// following line)
+					moved := ""
+					for _, b2 := range fn.Blocks {
+						for _, in2 := range b2.Instrs {
+							st2, ok := in2.(*ssa.Store)
+							if !ok {
+								continue
+							}
+							if fa2, ok := st2.Addr.(*ssa.FieldAddr); ok && namedOf(derefType(fa2.X.Type())) == sm.scanT && fa2.Field == sm.offI && instrDominates(st2, store) {
+								moved = p.Pos(instrPos(st2))
+							}
+						}
+					}
+					n++
+					r.Check(moved == "", "C15.R10", funcName(fn)+"|line bookkeeping before the cursor moves", p.Pos(instrPos(store)), "the newline that is tested is the character being left",
+						"the cursor is advanced (at "+moved+") before the newline test and the line bookkeeping: a line is counted on arriving at its newline, so the newline character itself, and whatever is reported at it, lies on the following line")
 					n++
 					r.Check(counted, "C15.R10", funcName(fn)+"|line count moves with the line head", p.Pos(instrPos(store)), "where the line head is set, the line count is incremented",
 						"the line head is moved past a newline but no line counter is incremented there: every position after the first newline is reported on the first line, and the statements of a second text are not shifted by the first text's line count")
@@ -1071,7 +1089,7 @@ func c15PositionArithmetic(p *Program, r *Report, sm *scanModel) {
 			}
 		}
 	}
-	r.Floor("C15.R10", n, 4)
+	r.Floor("C15.R10", n, 5)
 }
 
 // c15TokenAssigned (R11): every successful path of the scanning function gives the token a code: the code result never reaches
